@@ -3,7 +3,7 @@
 # Applies /verif/seeded/<id>/patch.diff to /repo, runs the quick check of the given properties
 # (default: the property named in meta.json), prints the outcome, and always reverts /repo.
 set -u
-D="$1"; shift
+D="$(cd "$1" && pwd)"; shift
 cd /verif
 PROPS="$*"
 if [ -z "$PROPS" ]; then PROPS=$(python3 -c "import json,sys; print(json.load(open('$D/meta.json'))['property'])"); fi
